@@ -14,6 +14,7 @@ import (
 	"reflect"
 	"strings"
 	"sync"
+	"time"
 
 	"free5gclib/aper"
 	"free5gclib/ngap/ngapType"
@@ -48,21 +49,23 @@ type Fault struct {
 
 // Choices are the AMF-side decisions of a scenario, all drawn from the scenario PRNG.
 type Choices struct {
-	R              *rand.Rand
-	AmfIDs         []int64 // per UE index (cycled)
-	NgKSI          byte
-	AmfName        string
-	ExtraDLIEs     bool // optional IEs in DownlinkNASTransport / InitialContextSetupRequest
-	RegAcceptOpts  int  // bit mask of optional Registration Accept IEs
-	QosRulesLen    int
-	AcceptOptMask  int
-	UEIPBase       net.IP
-	UPF            net.IP
-	TEIDBase       uint32
-	WithAMBR       bool
-	NoConfigUpdate bool // observation-only scenario: the AMF sends nothing after Registration Complete
-	AfterRegMsg    int  // what the AMF sends after Registration Complete: 0 Configuration Update Command (as Open5GS / free5GC), 1 LOCATION REPORTING CONTROL, 2 UE RADIO CAPABILITY CHECK REQUEST, 3 TRACE START-less: DEACTIVATE TRACE, 4 AMF STATUS INDICATION-free: ERROR INDICATION
-	BackupAMFName  bool
+	RejectSessionOf int // index+1 of the UE whose PDU session establishment the SMF refuses (0: none), TS 24.501 6.4.1.4
+	NGSetupRespLen  int // 0 = as it comes; else the exact size in octets of the NG SETUP RESPONSE
+	R               *rand.Rand
+	AmfIDs          []int64 // per UE index (cycled)
+	NgKSI           byte
+	AmfName         string
+	ExtraDLIEs      bool // optional IEs in DownlinkNASTransport / InitialContextSetupRequest
+	RegAcceptOpts   int  // bit mask of optional Registration Accept IEs
+	QosRulesLen     int
+	AcceptOptMask   int
+	UEIPBase        net.IP
+	UPF             net.IP
+	TEIDBase        uint32
+	WithAMBR        bool
+	NoConfigUpdate  bool // observation-only scenario: the AMF sends nothing after Registration Complete
+	AfterRegMsg     int  // what the AMF sends after Registration Complete: 0 Configuration Update Command (as Open5GS / free5GC), 1 LOCATION REPORTING CONTROL, 2 UE RADIO CAPABILITY CHECK REQUEST, 3 TRACE START-less: DEACTIVATE TRACE, 4 AMF STATUS INDICATION-free: ERROR INDICATION
+	BackupAMFName   bool
 }
 
 type Event struct {
@@ -123,6 +126,7 @@ type AMF struct {
 	Events     []Event
 	Violations []Violation
 	Observ     map[string]int
+	Rejected   int // PDU session establishments the SMF refused (by choice)
 	Sessions   []Session
 	ues        []*ueCtx
 	byRan      map[int64]*ueCtx
@@ -204,6 +208,13 @@ func (a *AMF) down(ue int64, name string, tag string, pdu ngapType.NGAPPDU, nasN
 			a.closeConn()
 			return
 		}
+		if d := LateBy(a.Fault.Kind); d > 0 {
+			// a slow peer: the undecodable answer arrives after the guard timers a UE runs for its procedures (T3510, T3517,
+			// T3521: 15 s; T3580: 16 s; T3516: 30 s) would have expired - it is an undecodable answer all the same
+			a.mu.Unlock()
+			time.Sleep(d)
+			a.mu.Lock()
+		}
 		b = Garbage(a.Fault.Kind, b, a.Ch.R)
 		ev.Note = "FAULT: " + a.Fault.Kind + " sent instead"
 	}
@@ -215,9 +226,22 @@ func (a *AMF) down(ue int64, name string, tag string, pdu ngapType.NGAPPDU, nasN
 	}
 }
 
+// LateBy: the delay of the "late" garbage kinds.
+func LateBy(kind string) time.Duration {
+	switch strings.TrimPrefix(kind, "garbage:") {
+	case "late-17s":
+		return 17 * time.Second
+	case "late-35s":
+		return 35 * time.Second
+	}
+	return 0
+}
+
 // Garbage produces bytes that are not a decodable NGAP PDU.
 func Garbage(kind string, valid []byte, r *rand.Rand) []byte {
 	switch strings.TrimPrefix(kind, "garbage:") {
+	case "late-17s", "late-35s":
+		return append([]byte(nil), valid[:len(valid)/2]...)
 	case "one-octet":
 		return []byte{0xff}
 	case "random32":
@@ -280,7 +304,16 @@ func Garbage(kind string, valid []byte, r *rand.Rand) []byte {
 	}
 }
 
-var GarbageKinds = []string{"garbage:one-octet", "garbage:random32", "garbage:truncated-half", "garbage:choice3", "garbage:random2048", "garbage:bad-length", "garbage:zeros", "garbage:truncated-1", "garbage:random2047", "garbage:random8192", "garbage:other-type-truncated", "garbage:dl-nas-header", "garbage:unsolicited-header"}
+var GarbageKinds = []string{"garbage:one-octet", "garbage:random32", "garbage:truncated-half", "garbage:choice3", "garbage:random2048", "garbage:bad-length", "garbage:zeros", "garbage:truncated-1", "garbage:random2047", "garbage:random8192", "garbage:other-type-truncated", "garbage:dl-nas-header", "garbage:unsolicited-header", "garbage:late-17s"}
+
+func pickByte(r *rand.Rand, xs ...byte) byte { return xs[r.Intn(len(xs))] }
+
+func maxInt(a, b int) int {
+	if a > b {
+		return a
+	}
+	return b
+}
 
 func minInt(a, b int) int {
 	if a < b {
@@ -526,42 +559,76 @@ func (a *AMF) onNGSetup(ies map[int64]ieInfo) {
 	}
 	a.ngSetup = true
 	// NG SETUP RESPONSE
-	var r ngapType.NGSetupResponse
-	add := func(id int64, crit uint64, f func(v *ngapType.NGSetupResponseIEsValue)) {
-		ie := ngapType.NGSetupResponseIEs{}
-		ie.Id.Value, ie.Criticality.Value = id, aper.Enumerated(crit)
-		f(&ie.Value)
-		r.ProtocolIEs.List = append(r.ProtocolIEs.List, ie)
-	}
-	add(1, 0, func(v *ngapType.NGSetupResponseIEsValue) {
-		v.Present = 1
-		v.AMFName = &ngapType.AMFName{Value: a.Ch.AmfName}
-	})
-	add(96, 0, func(v *ngapType.NGSetupResponseIEsValue) {
-		v.Present = 2
-		it := ngapType.ServedGUAMIItem{GUAMI: a.guami()}
-		if a.Ch.BackupAMFName {
-			it.BackupAMFName = &ngapType.AMFName{Value: "backup-" + a.Ch.AmfName}
+	mk := func(amfName string, extraSlices int) ngapType.NGAPPDU {
+		var r ngapType.NGSetupResponse
+		add := func(id int64, crit uint64, f func(v *ngapType.NGSetupResponseIEsValue)) {
+			ie := ngapType.NGSetupResponseIEs{}
+			ie.Id.Value, ie.Criticality.Value = id, aper.Enumerated(crit)
+			f(&ie.Value)
+			r.ProtocolIEs.List = append(r.ProtocolIEs.List, ie)
 		}
-		v.ServedGUAMIList = &ngapType.ServedGUAMIList{List: []ngapType.ServedGUAMIItem{it}}
-	})
-	add(86, 1, func(v *ngapType.NGSetupResponseIEsValue) {
-		v.Present = 3
-		v.RelativeAMFCapacity = &ngapType.RelativeAMFCapacity{Value: 255}
-	})
-	add(80, 0, func(v *ngapType.NGSetupResponseIEsValue) {
-		v.Present = 4
-		it := ngapType.PLMNSupportItem{}
-		it.PLMNIdentity.Value = plmn
-		it.SliceSupportList.List = []ngapType.SliceSupportItem{{SNSSAI: a.snssai()}}
-		v.PLMNSupportList = &ngapType.PLMNSupportList{List: []ngapType.PLMNSupportItem{it}}
-	})
-	var pdu ngapType.NGAPPDU
-	pdu.Present = 2
-	pdu.SuccessfulOutcome = &ngapType.SuccessfulOutcome{}
-	pdu.SuccessfulOutcome.ProcedureCode.Value = 21
-	pdu.SuccessfulOutcome.Value.Present = ngapType.SuccessfulOutcomePresentNGSetupResponse
-	pdu.SuccessfulOutcome.Value.NGSetupResponse = &r
+		add(1, 0, func(v *ngapType.NGSetupResponseIEsValue) {
+			v.Present = 1
+			v.AMFName = &ngapType.AMFName{Value: amfName}
+		})
+		add(96, 0, func(v *ngapType.NGSetupResponseIEsValue) {
+			v.Present = 2
+			it := ngapType.ServedGUAMIItem{GUAMI: a.guami()}
+			if a.Ch.BackupAMFName {
+				it.BackupAMFName = &ngapType.AMFName{Value: "backup-" + a.Ch.AmfName}
+			}
+			v.ServedGUAMIList = &ngapType.ServedGUAMIList{List: []ngapType.ServedGUAMIItem{it}}
+		})
+		add(86, 1, func(v *ngapType.NGSetupResponseIEsValue) {
+			v.Present = 3
+			v.RelativeAMFCapacity = &ngapType.RelativeAMFCapacity{Value: 255}
+		})
+		add(80, 0, func(v *ngapType.NGSetupResponseIEsValue) {
+			v.Present = 4
+			it := ngapType.PLMNSupportItem{}
+			it.PLMNIdentity.Value = plmn
+			it.SliceSupportList.List = []ngapType.SliceSupportItem{{SNSSAI: a.snssai()}}
+			for i := 0; i < extraSlices; i++ { // an AMF that serves many slices (up to 1024 per PLMN, TS 38.413 9.3.1.17)
+				var sl ngapType.SNSSAI
+				sl.SST.Value = []byte{byte(1 + i%4)}
+				sl.SD = &ngapType.SD{Value: []byte{byte(i >> 16), byte(i >> 8), byte(i)}}
+				it.SliceSupportList.List = append(it.SliceSupportList.List, ngapType.SliceSupportItem{SNSSAI: sl})
+			}
+			v.PLMNSupportList = &ngapType.PLMNSupportList{List: []ngapType.PLMNSupportItem{it}}
+		})
+		var pdu ngapType.NGAPPDU
+		pdu.Present = 2
+		pdu.SuccessfulOutcome = &ngapType.SuccessfulOutcome{}
+		pdu.SuccessfulOutcome.ProcedureCode.Value = 21
+		pdu.SuccessfulOutcome.Value.Present = ngapType.SuccessfulOutcomePresentNGSetupResponse
+		pdu.SuccessfulOutcome.Value.NGSetupResponse = &r
+		return pdu
+	}
+	pdu := mk(a.Ch.AmfName, 0)
+	if want := a.Ch.NGSetupRespLen; want > 0 {
+		// the response sized to an exact number of octets (the emulator reads into 2048-octet buffers): slices bring it
+		// close, the length of the AMF name (1..150 characters) closes the gap
+		lenOf := func(p ngapType.NGAPPDU) int { b, _ := per.Marshal(p, pduTag); return len(b) }
+		base, one := lenOf(pdu), lenOf(mk(a.Ch.AmfName, 1))
+	search:
+		for n := maxInt(0, (want-base)/maxInt(one-base, 1)-30); n <= 1023; n++ {
+			l := lenOf(mk("a", n))
+			if l > want {
+				break
+			}
+			if want-l > 149 {
+				continue
+			}
+			for k := 1; k <= 150; k++ {
+				name := strings.Repeat("a", k)
+				if lenOf(mk(name, n)) == want {
+					pdu = mk(name, n)
+					a.Observ["ng-setup-response-sized-"+fmt.Sprint(want)]++
+					break search
+				}
+			}
+		}
+	}
 	a.down(-1, "NGSetupResponse", "ng-setup-response", pdu, "", 0, -1)
 }
 
@@ -1250,6 +1317,18 @@ func (a *AMF) onULNASTransport(ue *ueCtx, p *refnas.Parsed, cur *Event) {
 			return
 		}
 		ue.psi = int64(inner.PSI)
+		if a.Ch.RejectSessionOf == ue.idx+1 {
+			// the SMF refuses: PDU SESSION ESTABLISHMENT REJECT (5GSM cause #26 insufficient resources, back-off timer absent)
+			// in a protected DL NAS TRANSPORT; the UE has no session, whatever it does next must not presuppose one
+			sm := []byte{0x2e, byte(ue.psi), inner.PTI, 0xc3, pickByte(a.Ch.R, 26, 27, 31, 33, 67, 69)}
+			mm := []byte{0x7e, 0x00, 0x68, 0x01, byte(len(sm) >> 8), byte(len(sm))}
+			mm = append(append(mm, sm...), 0x12, byte(ue.psi))
+			prot, c := a.protectDL(ue, 2, mm)
+			a.Rejected++
+			a.observe("session-establishment-rejected")
+			a.downNAS(ue, prot, "DLNASTransport(PDUSessionEstablishmentReject)", "session-reject", 2, c)
+			return
+		}
 		a.sendSetupRequest(ue, inner.PTI)
 	case "PDUSessionReleaseRequest":
 		if !ue.hasSession || ue.state != "registered" {
